@@ -14,6 +14,7 @@ WANTED = (
     "gymnasium/envs/classic_control/cartpole.py", "gymnasium/envs/classic_control/mountain_car.py",
     "gymnasium/envs/classic_control/continuous_mountain_car.py", "gymnasium/envs/classic_control/acrobot.py",
     "gymnasium/envs/classic_control/utils.py", "gymnasium/envs/mujoco/mujoco_env.py", "gymnasium/envs/mujoco/utils.py",
+    "gymnasium/envs/mujoco/__init__.py", "gymnasium/envs/classic_control/__init__.py",
 )
 
 
